@@ -302,6 +302,17 @@ def main(tier_, replay=None):
                 spell_pairs += 1
                 if obs["omitted"][1] != obs["uvar"][1]:
                     disagreements.append((s, c, r, "omitted vs unprovided variable: %s / %s" % (obs["omitted"][1], obs["uvar"][1])))
+            # a null runtime value for a non-null argument fails that field (it never falls back to the schema default);
+            # a declared but unprovided variable leaves the argument to its default
+            for k in ("nznull", "nydefnull"):
+                if k in obs and "failed" not in obs[k][1]:
+                    disagreements.append((s, c, r, "null through a nullable variable at a non-null argument (%s) did not fail the "
+                                                   "field: %s" % (k, obs[k][1])))
+            if "nqabsent" in obs and "omitted" in obs:
+                spell_pairs += 1
+                if obs["nqabsent"][1] != obs["omitted"][1]:
+                    disagreements.append((s, c, r, "unprovided variable at a defaulted non-null argument vs omitted argument: %s / %s" % (
+                        obs["nqabsent"][1], obs["omitted"][1])))
             if "nul" in obs and "omitted" in obs and obs["nul"][1] == obs["omitted"][1] and \
                     [f for f in s["types"]["Query"]["fields"] if f["name"] == c["field"]][0]["args"][0].get("default") is None:
                 disagreements.append((s, c, r, "explicit null not distinguished from absent"))
